@@ -438,11 +438,12 @@ PLAN = {
              "the threshold) / number of sessions; energy_cost = sum_k price(start + k x period) x aggregate power_k x period/60 with the prices being the "
              "tariff lookups of C17; demand_charge = demand rate of the schedule in effect at the start x max_k aggregate power_k; and on the network "
              "side constraint_current: the phase-aware weighted sums for the requested constraint names, returned in NETWORK order whatever order they "
-             "were requested in (order-preserving selection), for the requested periods. BOUNDED: constraint_currents (the name-keyed dictionary), "
-             "current_unbalance (NEMA), datetimes_array.",
+             "were requested in (order-preserving selection), for the requested periods; datetimes_array: one timestamp per completed period, entry i = the "
+             "start's wall-clock reading (zone dropped) + i x period x 60 s - fractional periods included -, a warning exactly when events are still pending. "
+             "BOUNDED: constraint_currents (the name-keyed dictionary), current_unbalance (NEMA).",
         note="numpy per A-LIB (sum(axis=0), dot, max as a canonical term with its two defining facts, Sum operator); sum() over a generator is the Sum "
              "operator, sum(1 for ... if c) is the length of the order-preserving selection; ghost witness: the price vector returned by get_tariffs",
-        explanation="proved: eight analysis functions and constraint_current as functional contracts (pyvc/z3); bounded: the remaining three functions (rt.netmon.analysis_monitor)",
+        explanation="proved: nine analysis functions and constraint_current as functional contracts (pyvc/z3); bounded: the remaining two functions (rt.netmon.analysis_monitor)",
         technique="contract-based deductive verification, functional contracts over a Sum / max theory (pyvc/z3) + run-time contract monitor (bounded)",
         trusted=["A-LIB numpy as in the note; the tariff lookups through their C17 contracts"],
     ),
